@@ -495,6 +495,9 @@ outer:
 			}
 			if id == nextStreamID {
 				nextStreamID++
+				// the stream was not indexed before, so it is new, even if packets of a known
+				// but never indexed pcap (e.g. queued when the process was killed) follow its first one
+				streamCategory = &addedStreams
 			}
 
 			for i := 0; ; i++ {
